@@ -13,7 +13,7 @@
 (***************************************************************************)
 EXTENDS Emit
 
-Ns == (IF Thorough THEN 1..4 ELSE 1..3) \cup {6}
+Ns == (IF Thorough THEN 1..4 ELSE 1..3) \cup {6, 17}
 Cs == IF Thorough THEN 1..3 ELSE 1..2
 LossDims == SetToSeq(({"mse", "bce"} \X {<<n>> : n \in Ns}) \cup ({"ce"} \X {<<n, c>> : n \in Ns, c \in Cs}))
 
@@ -26,7 +26,7 @@ Net == Flatten2([n \in 1..(IF Thorough THEN 3 ELSE 2) |-> Flatten2([f \in 1..2 |
 
 Descs == MyCases(Leaf \o Chain \o Net)
 
-PDom(loss) == IF loss = "mse" THEN "any,prob01" ELSE "prob01,unit"
+PDom(loss) == IF loss = "mse" THEN "any,prob01" ELSE "prob01,unit,prob01in"
 Build(d) ==
   CASE d[1] = "leaf" ->
          MkCase("c13", d[2], <<In("p", d[3], d[4]), In("t", d[3], d[5])>>,
